@@ -67,13 +67,24 @@ def parseAlias (s : String) : Option (Alias × Tlsa × Bool × Bool) :=
     pure (a, t, ad, ce)
   | _ => none
 
+/-- `<up>[<fam 6|b|x>]`: does something listen at the address(es) of the host, and which address records the host
+has (none = A only, `6` AAAA only, `b` both).  The family has no influence on the model: the AD bit `aAD` is that of
+whichever address RRsets exist (`CheckCNAMEAD` asks for A, then for AAAA), the connection goes to the same server. -/
+def parseUp (s : String) : Option Bool :=
+  match s.toList with
+  | [u] => bit? u
+  | [u, f] => do
+    let u ← bit? u
+    if f == '6' || f == 'b' then pure u else none
+  | _ => none
+
 /-- `<srv>.<up>.<starttls>.<cert>.<stsMatch>.<aAD>.<tlsaAD>.<tlsa>.<reqtls>.<slow>[.<alias>]`; the `slow` field
 (latency of the TLSA answers) has no influence on the model.  Without the alias field the MX name is not a CNAME. -/
 def parseMX (s : String) : Option MX :=
   let core (srv up st ce sm aad tad tl rt slow : String) (al : Alias × Tlsa × Bool × Bool) (alKind : String) :
       Option MX := do
     let srv ← srv.toNat?
-    let up ← bitS? up
+    let up ← parseUp up
     let st ← parseStartTLS st
     let (ce, shape) ← parseCert ce
     let sm ← bitS? sm
@@ -195,7 +206,54 @@ def showConc (o : Option MsgOut) : String :=
   | some o => showOut o
   | none => "x"
 
+/-- `<init>><final>[@<stage c|s|r|b>]:<rcpts>` with init / final = `<requireTLS><tlsRequiredNo><quarantine><smtputf8>`:
+the content of the source's meta-data object at `Start` and when the body stage ends; `@<stage>` (front `p` only): the
+stage at which the scripted check asks for quarantine.  The flag is never taken back; with front `p` it is raised by
+the check or not at all. -/
+def parseMeta : List Char → Option Meta
+  | [a, b, c, d] => do
+    let a ← bit? a
+    let b ← bit? b
+    let c ← bit? c
+    let d ← bit? d
+    pure ⟨a, b, c, d⟩
+  | _ => none
+
+def parseVMsg (front : String) (s : String) : Option QMsg :=
+  match s.splitOn ":" with
+  | [fl, rc] => do
+    let (fl, stage) ← (match fl.splitOn "@" with
+      | [f] => some (f, none)
+      | [f, st] => if front == "p" && (st == "c" || st == "s" || st == "r" || st == "b") then some (f, some st) else none
+      | _ => none)
+    let (i, f) ← (match fl.splitOn ">" with
+      | [i, f] => some (i, f)
+      | _ => none)
+    let i ← parseMeta i.toList
+    let f ← parseMeta f.toList
+    let rs ← (rc.splitOn ",").mapM String.toNat?
+    if rs.isEmpty || rs.any (· > 1) then none
+    else if i.quarantine && !f.quarantine then none
+    else if front == "p" && f.quarantine != (i.quarantine || stage.isSome) then none
+    else pure ⟨i, f, rs⟩
+  | _ => none
+
+def showOutU (p : QMsg × MsgOut) : String :=
+  let o := p.2
+  let rs := ",".intercalate (o.rcpts.map (fun p => s!"{p.1}={showRes p.2}"))
+  let ds := sortS (o.data.map (fun u =>
+    s!"{u.conn.mx.srv}.{b2s u.conn.tls.tlsOn}.{b2s u.mailRT}.{b2s (decide (u.conn.transactions > 0))}.{b2s p.1.mailUTF8}"))
+  let d := if ds.isEmpty then "-" else ",".intercalate ds
+  s!"r:{rs} d:{d}"
+
 def handle : List String → String
+  | ["via", front, cfg, d0, d1, msgs] =>
+    if front != "q" && front != "p" then "bad-op" else
+    match parseCfg cfg, parseDom d0, parseDom d1, (msgs.splitOn "/").mapM (parseVMsg front) with
+    | some cfg, some d0, some d1, some ms =>
+      let doms : Nat → Domain := fun i => if i == 0 then d0 else d1
+      " | ".intercalate ((ms.zip (runVia cfg doms ms emptyPool)).map showOutU)
+    | _, _, _, _ => "bad-op"
   | ["hist", cfg, d0, d1, msgs] =>
     match parseCfg cfg, parseDom d0, parseDom d1, (msgs.splitOn "/").mapM parseMsg with
     | some cfg, some d0, some d1, some ms =>
